@@ -22,8 +22,9 @@ PROP = "C05"
 MODULE = "PV.Props.C05"
 THEOREMS = [f"PV.Props.C05.{t}" for t in ["labelIndexFrom_add", "labelIndex_le", "labelIndex_correct", "specRemove_eq_map", "specRemove_length",
                                            "substTok_other", "substTok_label", "substInstr_head", "labelIndex_erase_other",
-                                           "label_removal_preserves_traces", "initial_states_related"]] + \
-           ["PV.Strip.strip_sim_fwd", "PV.Strip.strip_sim_bwd", "PV.Strip.exec_renum", "PV.Strip.strip_get"]
+                                           "label_removal_preserves_traces", "initial_states_related", "label_removal_preserves_traces_typed"]] + \
+           ["PV.Strip.strip_sim_fwd", "PV.Strip.strip_sim_bwd", "PV.Strip.exec_renum", "PV.Strip.strip_get", "PV.Strip.strip_sim_typed", "PV.Strip.exec_rel",
+            "PV.Strip.step_kept_typed"]
 
 SAFE_NAMES = ["alpha", "beta2", "run", "tick", "work", "zeta", "q", "mainloop", "doit", "x1", "calc", "report", "Heat", "B"]
 # names that exercise the textual label substitution without hitting a known collision
@@ -131,6 +132,17 @@ def run(tier: str, seed: int) -> int:
         # is judged by the text-level comparison above and by the behavioural run below.
         sv = drv.call(cmd="strip-compare", labelled=a["code"], stripped=b["code"])
         chk.bump("strip:" + sv["verdict"] + (":covered" if sv.get("covered") and sv["verdict"] == "same" else ""))
+        # programs with calls: hypothesis of `label_removal_preserves_traces_typed` on one run (no line number used as a value),
+        # and what it concludes (the label-free output's effects extend the labelled output's)
+        if sv["verdict"] == "same":
+            sr = drv.call(cmd="strip-run", labelled=a["code"], stripped=b["code"], seed=r.randrange(1 << 30), steps=1500, pool=gp[1] if gp is not None else [0.0, 1.0, 2.0, 3.0, 5.0])
+            if sr.get("verdict") == "done":
+                chk.bump("strip-run:" + ("typed" if sr["typed"] else "ill-typed") + (":calls" if not sv.get("covered") else ""))
+                if sr["typed"] and sr["same"] and not sr["traces_ok"]:
+                    # the theorem's hypotheses hold on this run and its conclusion does not: the machine model and its proof disagree
+                    raise common.Infra(f"strip-run: well-typed run with different traces ({name}) — model inconsistency")
+                if not sr["typed"] and len(chk.coverage.setdefault("ill_typed_samples", [])) < 3:
+                    chk.coverage["ill_typed_samples"].append({"name": name, "at": sr["ill_typed_at"]})
         if len(chk.coverage["samples"]) < 3 and detail.get("labels"):
             chk.sample({"name": name, "labelled_head": a["code"][:200], "label_free_head": b["code"][:200], "labels": detail.get("labels")})
         if bad:
